@@ -57,6 +57,13 @@ class Wire:
     def add_coincident(self, wire):
         """Adds a reference to a coincident wire, if it's aligned"""
         if self.is_coincident(wire) and wire not in self.coincidents:
+            # the same edge of the mesh: both wires must measure the same curve,
+            # whichever of the two operations defined it
+            if self.edge.kind == "line" and wire.edge.kind != "line":
+                self.edge = wire.edge
+            elif wire.edge.kind == "line" and self.edge.kind != "line":
+                wire.edge = self.edge
+
             self.coincidents.add(wire)
             self.coincident_list.append(wire)
 
